@@ -110,9 +110,20 @@ func ToGroupID(name string, tags map[string]string, dims Dimensions) GroupID {
 		if i != 0 {
 			buf.WriteRune(',')
 		}
-		buf.WriteString(d)
+		writeGroupIDPart(&buf, d)
 		buf.WriteRune('=')
-		buf.WriteString(tags[d])
+		writeGroupIDPart(&buf, tags[d])
 	}
 	return GroupID(buf.String())
+}
+
+// groupIDEscaper escapes the delimiters of a group ID inside tag names and values,
+// so that distinct tag sets can never produce the same ID.
+var groupIDEscaper = strings.NewReplacer(`\`, `\\`, `,`, `\,`, `=`, `\=`)
+
+func writeGroupIDPart(buf *strings.Builder, s string) {
+	if strings.ContainsAny(s, `,=\`) {
+		s = groupIDEscaper.Replace(s)
+	}
+	buf.WriteString(s)
 }
